@@ -288,19 +288,17 @@ def run_check(prop: str, tier: str, seed: int, replay: str | None = None) -> int
     if replay:
         return mod.replay(ctx, json.loads(Path(replay).read_text()))
 
-    # 1. translate --------------------------------------------------------------------
+    # 1. translate + 2. prove (one lock: the generated files and the build output are shared) ------
     proof_problems: list[str] = []
-    try:
-        gen = run_translators()
-    except Exception as e:  # translator no longer understands the source: a broken tie, not infra
-        gen = {"error": f"{type(e).__name__}: {e}"}
-        proof_problems.append(f"translator failed: {type(e).__name__}: {e}")
-
-    # 2. prove -------------------------------------------------------------------------
     names = theorem_names(prop)
     axioms: dict[str, list[str] | None] = {}
     build_log = ""
     with LakeLock():
+        try:
+            gen = run_translators()
+        except Exception as e:  # translator no longer understands the source: a broken tie, not infra
+            gen = {"error": f"{type(e).__name__}: {e}"}
+            proof_problems.append(f"translator failed: {type(e).__name__}: {e}")
         ok_drv, log_drv = lake_build(["stabdrv"])
         if not ok_drv:
             # the driver only depends on Model/*; if it fails it is our bug or the toolchain
